@@ -49,6 +49,13 @@ func EndBlocker(ctx sdk.Context, k keeper.Keeper) {
 			}
 		}
 
+		// a context paused during its last batch has nothing left to run
+		if requestContext.State == types.PAUSED {
+			if !requestContext.Repeated || (requestContext.RepeatedTotal > 0 && int64(requestContext.BatchCounter) >= requestContext.RepeatedTotal) {
+				k.CompleteServiceContext(ctx, requestContext, requestContextID)
+			}
+		}
+
 		k.CleanBatch(ctx, requestContext, requestContextID)
 	}
 
